@@ -364,6 +364,8 @@ where
             let mut shard_write = shard.write().unwrap_or_else(PoisonError::into_inner);
             let v = if let Some((_, v)) = shard_write.raw_entry().from_key_hashed_nocheck(hash, key)
             {
+                #[cfg(metrics_verif)]
+                metrics::__verif::probe("registry.write_recheck_hit");
                 v
             } else {
                 let (_, v) = shard_write
@@ -398,6 +400,8 @@ where
             let mut shard_write = shard.write().unwrap_or_else(PoisonError::into_inner);
             let v = if let Some((_, v)) = shard_write.raw_entry().from_key_hashed_nocheck(hash, key)
             {
+                #[cfg(metrics_verif)]
+                metrics::__verif::probe("registry.write_recheck_hit");
                 v
             } else {
                 let (_, v) = shard_write
@@ -432,6 +436,8 @@ where
             let mut shard_write = shard.write().unwrap_or_else(PoisonError::into_inner);
             let v = if let Some((_, v)) = shard_write.raw_entry().from_key_hashed_nocheck(hash, key)
             {
+                #[cfg(metrics_verif)]
+                metrics::__verif::probe("registry.write_recheck_hit");
                 v
             } else {
                 let (_, v) = shard_write
